@@ -202,6 +202,9 @@ func factsSession() {
 		iRecv := idx(evs, 0, "assign", `^stream := <-sesh\.acceptCh$`)
 		iNil := idx(evs, iRecv, "if", `^stream == nil$`)
 		boolFact(g, "acceptNilIsBroken", iRecv >= 0 && iNil > iRecv && contains(evs[iNil+1].text, "ErrBrokenSession"), "Accept: a closed queue yields ErrBrokenSession")
+		// does Accept refuse on the closed flag BEFORE it looks at the queue (streams queued when the session closed are then lost)?
+		iClosedTest := idx(evs, 0, "if", `^sesh\.IsClosed\(\)$`)
+		boolFact(g, "acceptChecksClosedFirst", iRecv >= 0 && iClosedTest >= 0 && iClosedTest < iRecv, "Accept tests IsClosed() before receiving from acceptCh")
 	} else {
 		unrec(g, "acceptNilIsBroken", "Accept not found")
 	}
